@@ -82,6 +82,7 @@ func FTP(options ...services.ServicerFunc) services.Servicer {
 
 	log.Debugf("FileSystem rooted at %s", fs.RealPath("/"))
 
+	s.fs = fs
 	s.driver = NewFileDriver(fs)
 
 	return s
@@ -102,6 +103,8 @@ type ftpService struct {
 
 	driver Driver
 
+	fs *filesystem.Htfs
+
 	FsRoot string `toml:"fs_base"`
 
 	recv chan string
@@ -120,7 +123,14 @@ func (s *ftpService) Handle(ctx context.Context, conn net.Conn) error {
 	recv := make(chan string)
 	done := make(chan struct{})
 
-	ftpConn := s.server.newConn(conn, s.driver, recv)
+	// every connection has its own working directory
+	driver := s.driver
+	if s.fs != nil {
+		fs := *s.fs
+		driver = NewFileDriver(&fs)
+	}
+
+	ftpConn := s.server.newConn(conn, driver, recv)
 
 	go func() {
 		defer close(done)
